@@ -146,6 +146,15 @@ def main():
     sh(["git", "checkout", "--", "."], cwd=geo)
     os.remove(os.path.join(geo, "geo", "tests", tname + ".rs"))
     meta_out = dict(meta)
+    try:  # keep our own annotations of an earlier evaluation
+        prev = json.load(open(os.path.join(dst, "meta.json")))
+        for key in ("strengthened", "detection_repo_quick", "first_evaluation"):
+            if key in prev:
+                meta_out[key] = prev[key]
+        if "detection_scratch_quick" in prev and "first_evaluation" not in prev:
+            meta_out["first_evaluation"] = {"repo_head": prev.get("repo_head_when_evaluated"), "detection_scratch_quick": prev["detection_scratch_quick"]}
+    except Exception:
+        pass
     meta_out["repo_head_when_evaluated"] = head
     if verified:
         meta_out["confirmed_by_us"] = verified
